@@ -44,6 +44,8 @@ const preludeAxioms = `(assert (forall ((s Slice) (k Int)) (! (= (idx s k) (elem
 (assert (forall ((s Str)) (! (= (s_sub s 0 (s_len s)) s) :pattern ((s_sub s 0 (s_len s))))))
 (assert (forall ((a Str) (b Str)) (! (= (s_len (s_cat a b)) (+ (s_len a) (s_len b))) :pattern ((s_cat a b)))))
 (assert (forall ((a Str) (b Str) (k Int)) (! (=> (and (<= 0 k) (< k (+ (s_len a) (s_len b)))) (= (s_at (s_cat a b) k) (ite (< k (s_len a)) (s_at a k) (s_at b (- k (s_len a)))))) :pattern ((s_at (s_cat a b) k)))))
+(assert (forall ((a Str) (b Str)) (! (and (= (s_sub (s_cat a b) 0 (s_len a)) a) (= (s_sub (s_cat a b) (s_len a) (+ (s_len a) (s_len b))) b)) :pattern ((s_cat a b)))))
+(assert (forall ((s Str) (i Int) (j Int) (k Int) (l Int)) (! (=> (and (<= 0 i) (<= i j) (<= j (s_len s)) (<= 0 k) (<= k l) (<= l (- j i))) (= (s_sub (s_sub s i j) k l) (s_sub s (+ i k) (+ i l)))) :pattern ((s_sub (s_sub s i j) k l)))))
 (assert (forall ((a Str)) (! (not (s_lt a a)) :pattern ((s_lt a a)))))
 (assert (forall ((a Str) (b Str)) (! (=> (s_lt a b) (not (s_lt b a))) :pattern ((s_lt a b)))))
 (assert (forall ((a Str) (b Str)) (! (or (= a b) (s_lt a b) (s_lt b a)) :pattern ((s_lt a b)))))
@@ -158,6 +160,14 @@ func dischargeAll(obs []*Obligation, workdir string, tlim int, par int, only str
 				res[i] = Result{Ob: ob, Status: "error", Solver: "govc", Output: "the contract of this function no longer applies to its code: " + ob.errText}
 				return
 			}
+			if ob.static {
+				if ob.staticFail == "" {
+					res[i] = Result{Ob: ob, Status: "unsat", Solver: "sweep"}
+				} else {
+					res[i] = Result{Ob: ob, Status: "refuted", Solver: "sweep", Output: ob.staticFail}
+				}
+				return
+			}
 			q := ob.Query()
 			tl, on := tlim, only
 			// relevance slices first: smaller contexts prove most
@@ -169,7 +179,7 @@ func dischargeAll(obs []*Obligation, workdir string, tlim int, par int, only str
 					if len(qs) == len(q) {
 						continue
 					}
-					st, sv, out, ms := runPortfolio(qs, workdir, i*10+lvl, 6, only)
+					st, sv, out, ms := runPortfolio(qs, workdir, i*10+lvl, 10, only)
 					if st == "unsat" {
 						res[i] = Result{Ob: ob, Status: st, Solver: sv + fmt.Sprintf("/slice%d", lvl), Millis: ms, Output: out, SMTBytes: len(qs)}
 						done = true
